@@ -236,6 +236,7 @@ func c16Check(batches []c16Batch, completed int, st raftpb.HardState, ents []raf
 func c16Crash(layouts, nDone, entsPer, maxData int) { c16CrashAt(0, layouts, nDone, entsPer, maxData) }
 
 func c16CrashAt(first, layouts, nDone, entsPer, maxData int) {
+	baseBatch := c16BaseBatch
 	c16Stubs()
 	// layout j: the first batch after the head starts 8*j bytes before the first sector boundary, so the
 	// boundary falls at every 8-aligned position of the batches (records are 8-byte aligned)
@@ -247,12 +248,30 @@ func c16CrashAt(first, layouts, nDone, entsPer, maxData int) {
 	vfAssert(f.wpos == c16Sector-8*j, "layout-position")
 	var batches []c16Batch
 	idx := uint64(1)
-	for i := 0; i < nDone; i++ {
-		b := c16MkBatch("done", idx, entsPer, maxData)
+	prev := raftpb.HardState{}
+	if baseBatch {
+		// an earlier completed Save establishes the term, so that a later entry-less Save can change the vote alone
+		b := c16MkBatch("base", idx, 1, 0)
+		idx++
+		vfAssert(w.Save(b.st, b.ents) == nil, "save-error")
+		batches = append(batches, b)
+		prev = b.st
+		nDone++
+	}
+	for i := len(batches); i < nDone; i++ {
+		n := entsPer
+		if vfChoice("done.noentries", 2) == 1 {
+			n = 0 // a Save that only records a new term or vote must be durable as well
+		}
+		b := c16MkBatch("done", idx, n, maxData)
+		if n == 0 {
+			vfAssume(vfOr(b.st.Term != prev.Term, b.st.Vote != prev.Vote))
+		}
+		prev = b.st
 		idx += uint64(len(b.ents))
 		before := f.syncs
 		vfAssert(w.Save(b.st, b.ents) == nil, "save-error")
-		vfAssert(f.syncs > before, "save-with-entries-not-synced")
+		vfAssert(f.syncs > before, "completed-save-not-synced")
 		batches = append(batches, b)
 	}
 	// the interrupted save: its bytes reach the file but the sync never completes
@@ -272,7 +291,12 @@ func c16CrashAt(first, layouts, nDone, entsPer, maxData int) {
 	c16Check(batches, nDone, st, ents)
 }
 
+var c16BaseBatch bool
+
 func VF_C16_crash_quick()    { c16Crash(20, 1, 1, 2) }
+
+// a completed Save that only changes the vote (same term, no entries) must be durable as well
+func VF_C16_crash_voteonly() { c16BaseBatch = true; c16CrashAt(4, 6, 1, 1, 0) }
 func VF_C16_crash_thorough() { c16Crash(40, 2, 2, 3) }
 
 // ---------------------------------------------------------------------------
@@ -347,6 +371,7 @@ func c16Corrupt(maxData int) { c16CorruptAt(-1, maxData) }
 
 func c16CorruptAt(at, maxData int) {
 	c16Stubs()
+	vfOpt("hangcheck", 1)
 	w, f, meta := c16Writer(1, 16)
 	headEnd := f.wpos
 	b := c16MkBatch("b", 1, 1, maxData)
@@ -527,4 +552,49 @@ func VF_C16_readall_index() {
 			}
 		}
 	}
+}
+
+// ---------------------------------------------------------------------------
+// VF_C16_corrupt_sealed: the log has two segments; one byte of a frame-size word (every byte of every
+// length word) of the first, sealed segment is damaged: ReadAll answers an error or unmodified data, it
+// never panics and never allocates from an unchecked length.
+func VF_C16_corrupt_sealed() {
+	c16Stubs()
+	vfOpt("hangcheck", 1) // an allocation or loop driven by a damaged length word is a violation, not a bound
+	w1, f1, meta := c16Writer(1, 8)
+	b1 := c16MkBatch("one", 1, 1, 1)
+	vfAssert(w1.Save(b1.st, b1.ents) == nil, "save-error")
+	end1 := f1.wpos
+	crc1 := w1.encoder.crc.Sum32()
+	b2 := c16MkBatch("two", 2, 1, 0)
+	f2 := c16Segment2(crc1, meta, b1.st, b2)
+	// offsets of the length words of segment 1
+	var words []int
+	for off := 0; off < end1; {
+		words = append(words, off)
+		l := binary.LittleEndian.Uint64(f1.data[off : off+8])
+		rb, pb := int(l&^(uint64(0xff)<<56)), 0
+		if int64(l) < 0 {
+			pb = int(l>>56) & 7
+		}
+		off += 8 + rb + pb
+	}
+	o := words[vfChoice("record", len(words))] + vfChoice("byte", 8)
+	img := make([]byte, end1) // a sealed segment is cut to its used length
+	copy(img, f1.data[:end1])
+	nv := vfByte("newval")
+	vfAssume(nv != img[o])
+	img[o] = nv
+	r := &WAL{decoder: newDecoder(&c16Reader{data: img}, &c16Reader{data: f2.data})}
+	md, st, ents, err := r.ReadAll()
+	if err != nil {
+		return
+	}
+	vfAssert(vfBytesEq(md, meta), "sealed-corrupt-metadata-changed")
+	vfAssert(len(ents) <= 2, "sealed-corrupt-extra-entries")
+	all := []raftpb.Entry{b1.ents[0], b2.ents[0]}
+	for i := range ents {
+		vfAssert(c16EntryEq(ents[i], all[i]), "sealed-corrupt-entry-modified")
+	}
+	vfAssert(vfOr(c16StateEq(st, b2.st), vfOr(c16StateEq(st, b1.st), c16StateEq(st, raftpb.HardState{}))), "sealed-corrupt-hardstate-modified")
 }
